@@ -459,6 +459,9 @@ pub struct LimitTap {
     pub inner: BoxL,
     pub st: Rc<RefCell<LimTapState>>,
     pub input: Rc<RefCell<TapState>>,
+    /// second stage of a fused pair: its real input is the first stage's view of `input`
+    /// (first stage and the limit tap that tells which limit it has pulled)
+    pub upstream: Option<(StageSpec, Rc<RefCell<LimTapState>>)>,
     pub env: Env,
     pub cs: Rc<ConsumerShared>,
 }
@@ -479,7 +482,16 @@ impl Stream for LimitTap {
                 // KF-D5 trigger (known finding): Tail pulls a smaller limit while its old limit
                 // exceeds the length of its input — it pops `old - new` items instead of `len - new`.
                 if st.is_tail && this.env.borrow().kf_retire {
-                    let len = this.input.borrow().replica.len();
+                    let len = match &this.upstream {
+                        None => this.input.borrow().replica.len(),
+                        Some((spec, lt)) => {
+                            let input = vs(&this.input.borrow().replica);
+                            match super::view::stage_view(spec, &input, lt.borrow().pulled) {
+                                super::view::Expect::Exact(v) => v.len(),
+                                super::view::Expect::Sorted { items, .. } => items.len(),
+                            }
+                        }
+                    };
                     if old > len && len > *new && *new > 0 {
                         this.cs.retire.set(Some("KF-D5"));
                     }
